@@ -37,6 +37,9 @@ struct Rl {
     scale: u64,
     /// every caller goes through the one original handle instead of a clone of its own
     single_handle: bool,
+    /// the configuration starts from the `burst(..)` convenience constructor (sliding counter,
+    /// 1 s period, 100 ms timeout) and overrides every setting afterwards
+    from_preset: bool,
 }
 
 struct X {
@@ -162,7 +165,7 @@ impl Scenario for Rl {
         self.prop
     }
     fn label(&self) -> String {
-        format!("ratelimiter window={} limit={} period={}ms timeout={}ms callers={}{}", wname(self.window), self.limit, self.period(), self.timeout_ms(), self.callers, if self.late_ticks > 0 { " late-polls" } else if self.depth.is_some() { " long-run" } else if self.single_handle { " one-handle" } else { "" })
+        format!("ratelimiter window={} limit={} period={}ms timeout={}ms callers={}{}", wname(self.window), self.limit, self.period(), self.timeout_ms(), self.callers, if self.late_ticks > 0 { " late-polls" } else if self.depth.is_some() { " long-run" } else if self.single_handle { " one-handle" } else if self.from_preset { " from-burst()-preset" } else { "" })
     }
     fn callers(&self) -> usize {
         self.callers
@@ -177,7 +180,7 @@ impl Scenario for Rl {
         10 * self.scale
     }
     fn init(&self, w: &mut World) -> X {
-        let layer = RateLimiterLayer::builder()
+        let layer = (if self.from_preset { RateLimiterLayer::burst(3, 4) } else { RateLimiterLayer::builder() })
             .limit_for_period(self.limit)
             .refresh_period(Duration::from_millis(self.period()))
             .timeout_duration(self.timeout_dur())
@@ -408,33 +411,35 @@ fn configs(prop: &'static str, tier: Tier) -> Vec<Rl> {
                     Tier::Quick => limit + 2,
                     Tier::Thorough => 4,
                 };
-                v.push(Rl { prop, window, limit, timeout, callers, max_ticks: tier.pick(9, 12), max_drops: tier.pick(1, 2), late_ticks: 0, depth: None, scale: 1, single_handle: false });
+                v.push(Rl { prop, window, limit, timeout, callers, max_ticks: tier.pick(9, 12), max_drops: tier.pick(1, 2), late_ticks: 0, depth: None, scale: 1, single_handle: false, from_preset: false });
             }
         }
         // a long, drop-free run over more than two periods with limit 2 (quick tier: the
         // general configurations stop at 9 ticks): bucket bookkeeping that drifts with the
         // instants of the calls shows only after a call in the middle of the second period
         if tier == Tier::Quick && window == WindowType::SlidingCounter {
-            v.push(Rl { prop, window, limit: 2, timeout: 10, callers: 4, max_ticks: 11, max_drops: 0, late_ticks: 0, depth: Some(18), scale: 1, single_handle: false });
+            v.push(Rl { prop, window, limit: 2, timeout: 10, callers: 4, max_ticks: 11, max_drops: 0, late_ticks: 0, depth: Some(18), scale: 1, single_handle: false, from_preset: false });
         }
         // thorough: every window type over four and a half periods, three callers, no drops
         if tier == Tier::Thorough {
             for (limit, timeout) in [(1usize, 10u64), (2, 10), (1, 40), (2, 40)] {
-                v.push(Rl { prop, window, limit, timeout, callers: 3, max_ticks: 18, max_drops: 0, late_ticks: 0, depth: Some(26), scale: 1, single_handle: false });
+                v.push(Rl { prop, window, limit, timeout, callers: 3, max_ticks: 18, max_drops: 0, late_ticks: 0, depth: Some(26), scale: 1, single_handle: false, from_preset: false });
             }
         }
+        // configured from the burst(..) convenience constructor, every setting overridden
+        v.push(Rl { prop, window, limit: 1, timeout: 40, callers: 3, max_ticks: tier.pick(6, 9), max_drops: 1, late_ticks: 0, depth: None, scale: 1, single_handle: false, from_preset: true });
         // "always wait": timeout_duration = Duration::MAX
-        v.push(Rl { prop, window, limit: 1, timeout: WAIT_FOR_EVER, callers: 3, max_ticks: tier.pick(9, 12), max_drops: 1, late_ticks: 0, depth: None, scale: 1, single_handle: false });
+        v.push(Rl { prop, window, limit: 1, timeout: WAIT_FOR_EVER, callers: 3, max_ticks: tier.pick(9, 12), max_drops: 1, late_ticks: 0, depth: None, scale: 1, single_handle: false, from_preset: false });
         // everything in the seconds range: period 4.04 s, timeouts 1.01 s and 6.06 s, on a 1.01 s grid
         for timeout in [10u64, 60] {
-            v.push(Rl { prop, window, limit: 1, timeout, callers: 3, max_ticks: tier.pick(9, 12), max_drops: 1, late_ticks: 0, depth: None, scale: 101, single_handle: false });
+            v.push(Rl { prop, window, limit: 1, timeout, callers: 3, max_ticks: tier.pick(9, 12), max_drops: 1, late_ticks: 0, depth: None, scale: 101, single_handle: false, from_preset: false });
         }
         // all callers through the one original handle
-        v.push(Rl { prop, window, limit: 1, timeout: 40, callers: 3, max_ticks: tier.pick(6, 9), max_drops: 1, late_ticks: 0, depth: None, scale: 1, single_handle: true });
+        v.push(Rl { prop, window, limit: 1, timeout: 40, callers: 3, max_ticks: tier.pick(6, 9), max_drops: 1, late_ticks: 0, depth: None, scale: 1, single_handle: true, from_preset: false });
         // a late executor: waiters woken for the next window are polled up to two ticks late
         // (the decided-within-timeout clause presupposes prompt polling and is not judged here)
         for timeout in tier.pick(vec![100u64], vec![40, 100]) {
-            v.push(Rl { prop, window, limit: 1, timeout, callers: 3, max_ticks: tier.pick(8, 10), max_drops: tier.pick(0, 1), late_ticks: 2, depth: None, scale: 1, single_handle: false });
+            v.push(Rl { prop, window, limit: 1, timeout, callers: 3, max_ticks: tier.pick(8, 10), max_drops: tier.pick(0, 1), late_ticks: 2, depth: None, scale: 1, single_handle: false, from_preset: false });
         }
     }
     v
